@@ -517,7 +517,6 @@ def m_tables(r, origin_ok=True):
     serializing = set()
     # (chains) the replacement type of a key may carry a LATER key of K (or be the overridden type itself: the lookup stops there),
     # and may be a container over later keys: the implementation looks the replacement up again (model: SchemaChain.rchain).
-    # Replacements that lead back to an earlier key never stop (known finding table-override-recursion): not generated here.
     chain = r.random() < 0.4
     _CHAIN[0] = chain
     for ki, k in enumerate(K):
@@ -525,9 +524,8 @@ def m_tables(r, origin_ok=True):
             x = r.random()
             cands = [o for o in OV_RET if o[2] not in K]
             if chain:
-                later = set(K[ki + 1:])
-                cands = [o for o in OV_RET if o[2] not in K or o[2] in later or o[2] == k]
-                cands += [(fn, coq, None) for fn, coq, ks in OV_CONT if not (ks & (set(K) - later))]
+                # (/repo PENDING, _overridden_types) also replacements that lead BACK to an overridden key: a key is used once per path
+                cands = OV_RET + [(fn, coq, None) for fn, coq, ks in OV_CONT]
             if k == "Pt" or x < 0.55:
                 fn, coq, _ = r.choice(cands)
                 form = r.choice(["dict", "dict", "cls"]) if fn == "ser_str" else "dict"
@@ -864,7 +862,7 @@ def _bad_idx(*a, **kw):
 
 
 def coq_part(ctx: vlib.Ctx):
-    br = ctx.theorems("props/C20_schema.vo", THEOREMS + RT_THEOREMS + ["C20_override_noop", "C20_override_covered", "C20_override_origin_key", "C20_chain_mono", "C20_chain_total_partial", "C20_chain_total_refuted", "C20_chain_cycle_diverges", "C20_chain_agrees_flat", "C20_chain_covered", "C20_default_value_is_ref_enc", "C20_default_prerendered", "C20_default_scalars"], kernels=["K9"])
+    br = ctx.theorems("props/C20_schema.vo", THEOREMS + RT_THEOREMS + ["C20_override_noop", "C20_override_covered", "C20_override_origin_key", "C20_chain_mono", "C20_chain_total_partial", "C20_chain_total", "C20_chain_v_mono", "C20_chain_agrees_flat", "C20_chain_covered", "C20_default_value_is_ref_enc", "C20_default_prerendered", "C20_default_scalars"], kernels=["K9"])
     if br.ok and not ctx.quick():
         rc, out, _ = vlib.run(["timeout", "900", "coqchk", "-silent", "-o"] + vlib.COQ_FLAGS[:9] + ["VerifProps.C20_schema"],
                               cwd=vlib.COQ, timeout=930)
